@@ -13,6 +13,7 @@ import Zed.Model.ZsonGuard
   `(C02 rt <scope> <persist> (T V) …)`     → `(ok|changed|(err e) …)` model round trip through a stream reader
   `(C02 guard (T V))`                      → the theorem's guard: plain=b wfTy=b wfVal=b bareEmpty=b errOK=b
   `(C02 guardnamed (T V))`                 → 1 | 0: the guard of zson_roundtrip_value_named_top_partial (fresh formatter)
+  `(C02 guardnested ((hexname T) …) (T V) …)` → 1 | 0: the guard of zson_roundtrip_stream_nested_partial for the binding table
   `(C02 guardstream (T V) …)`              → 1 | 0: the guard of zson_roundtrip_stream_partial
   `(C02 fmttype T)`                        → type ast
   `(C02 rttype T)`                         → ok | changed | (err e)
@@ -321,6 +322,10 @@ def handle : List Sexp → String
     match decTV tv with
     | some (t, v) => if namedTopGuard t v then "1" else "0"
     | none => "bad-op"
+  | .atom "guardnested" :: .list bs :: tvs =>
+    match bs.mapM (fun | .list [.atom n, t] => do pure (← Sexp.bytesOfHex n, ← decTy t) | _ => none), tvs.mapM decTV with
+    | some b, some items => if items.all (itemOKB b) then "1" else "0"
+    | _, _ => "bad-op"
   | .atom "guardstream" :: tvs =>
     match tvs.mapM decTV with
     | some items => if items.all itemOK && namesConsistent items then "1" else "0"
